@@ -13,6 +13,7 @@ listed here raises Unsupported with the place), constants are folded from the AS
   names) and what follows: nothing (anything else is an empty digest) or `elif value is not None: raise`;
   the length each setter demands;
 * Record.__setattr__: the guard, the conversion, and that the one store comes after the conversion;
+* GroupedRecord.__setattr__: a member's field goes to setattr(member, attr, val);
 * typedlist.__init__ / _convert;
 * datetime.__new__: `tzinfo = arg.tzinfo or UTC` and the final `if obj.tzinfo is None: ... replace(tzinfo=UTC)`;
 * net.ipaddress / net.ipnetwork: the constructor is exactly ip_address(addr) / ip_network(addr).
@@ -398,6 +399,55 @@ def setattr_facts(base):
     return ("none" in gnames), before
 
 
+def grouped_facts(base):
+    """GroupedRecord.__setattr__: a name that belongs to a member record is handed to setattr(member, attr, val)
+    (-> Record.__setattr__, True) or stored with object.__setattr__(member, attr, val) (False)"""
+    fn = base.GroupedRecord.__setattr__
+    node = _fn(fn)
+    names = [a.arg for a in node.args.args]
+    if len(names) != 3:
+        raise Unsupported("%s: signature" % _where(fn))
+    attr, val = names[1], names[2]
+    body = _body(node)
+    if len(body) != 2 or not isinstance(body[0], ast.If) or body[0].orelse:
+        raise Unsupported("%s: body is not `if <member field>: ...` + the group's own attributes" % _where(fn))
+    t = body[0].test
+    if not (isinstance(t, ast.Compare) and len(t.ops) == 1 and isinstance(t.ops[0], ast.In) and _is_name(t.left, attr)
+            and "fieldname_to_record" in ast.unparse(t.comparators[0])):
+        raise Unsupported("%s: test is not `attr in <fieldname_to_record>`" % _where(fn, t))
+    inner = body[0].body
+    member = None
+    delegates = None
+    for st in inner:
+        if (isinstance(st, ast.Assign) and len(st.targets) == 1 and isinstance(st.targets[0], ast.Name)
+                and isinstance(st.value, (ast.Call, ast.Subscript)) and "fieldname_to_record" in ast.unparse(st.value)
+                and attr in ast.unparse(st.value)):
+            member = st.targets[0].id
+            continue
+        call = st.value if isinstance(st, (ast.Return, ast.Expr)) else None
+        if member and isinstance(call, ast.Call) and len(call.args) == 3 and not call.keywords \
+                and _is_name(call.args[0], member) and _is_name(call.args[1], attr) and _is_name(call.args[2], val):
+            if _is_name(call.func, "setattr"):
+                delegates = True
+                continue
+            if (isinstance(call.func, ast.Attribute) and call.func.attr == "__setattr__" and _is_name(call.func.value, "object")):
+                delegates = False
+                continue
+        raise Unsupported("%s: unrecognised statement `%s`" % (_where(fn, st), ast.unparse(st)[:70]))
+    if delegates is None:
+        raise Unsupported("%s: the member's field is not assigned" % _where(fn))
+    own = body[1]
+    call = own.value if isinstance(own, (ast.Return, ast.Expr)) else None
+    if not (isinstance(call, ast.Call) and isinstance(call.func, ast.Attribute) and call.func.attr == "__setattr__"
+            and _is_name(call.func.value, "object") and len(call.args) == 3 and _is_name(call.args[0], "self")):
+        raise Unsupported("%s: the group's own attributes are not stored with object.__setattr__(self, ...)" % _where(fn, own))
+    # a member is a plain Record: its class must not override __setattr__ (generated classes do not)
+    d = base.RecordDescriptor("c05/probe", [("string", "a")])
+    if "__setattr__" in d.recordType.__dict__:
+        raise Unsupported("generated record classes define __setattr__")
+    return delegates
+
+
 def typedlist_facts(ft):
     cls = ft.typedlist
     fn = cls._convert
@@ -588,6 +638,7 @@ def gen_coerce():
     tl_convert, tl_falsy = typedlist_facts(ft)
     arg_utc, final_utc = datetime_facts(ft)
     ip_facts(ip)
+    grouped = grouped_facts(base)
 
     def cbound(b):
         return "{| b_lo := %s; b_lo_op := %s; b_hi := %s; b_hi_op := %s |}" % (cZ(b[0]), b[1], cZ(b[2]), b[3])
@@ -603,7 +654,8 @@ def gen_coerce():
     out += "     f_digest_len := (%s, %s, %s);\n     f_digest_else_empty := %s;\n" % (cZ(lens[0]), cZ(lens[1]), cZ(lens[2]), cbool(else_empty))
     out += "     f_sa_guard_none := %s;\n     f_sa_convert_before_store := %s;\n" % (cbool(guard_none), cbool(before))
     out += "     f_tl_convert := %s;\n     f_tl_falsy_empty := %s;\n" % (cbool(tl_convert), cbool(tl_falsy))
-    out += "     f_dt_arg_utc := %s;\n     f_dt_final_utc := %s |}.\n" % (cbool(arg_utc), cbool(final_utc))
+    out += "     f_dt_arg_utc := %s;\n     f_dt_final_utc := %s;\n     f_grouped_delegates := %s |}.\n" % (
+        cbool(arg_utc), cbool(final_utc), cbool(grouped))
     write_if_changed(GEN / "Gen_coerce.v", out)
 
 
